@@ -376,9 +376,9 @@ CHECKS = {"op": chk_op, "unary": chk_unary, "binary": chk_binary, "inflate": chk
 
 
 def plan(tier, seed):
-    nmax = 5 if tier == "quick" else 6
+    nmax = 5 if tier == "quick" else 7
     specs = [{"name": f"unary-{n}-{i}", "kind": "unary", "n": n, "part": i, "parts": parts}
-             for n in range(nmax + 1) for parts in [1 if n < 5 else (4 if n == 5 else 16)] for i in range(parts)]
+             for n in range(nmax + 1) for parts in [1 if n < 5 else (4 if n == 5 else (16 if n == 6 else 128))] for i in range(parts)]
     specs += [{"name": f"binary-{i}", "kind": "binary", "part": i, "parts": 4, "nmax": 4 if tier == "quick" else 5} for i in range(4)]
     specs += [{"name": f"rand-{i}", "kind": "rand", "count": (3000 if tier == "quick" else 40000) // 8} for i in range(8)]
     return specs
